@@ -65,8 +65,8 @@ def radon_torch(images, theta=None, device=None):
         angle_rad = torch.deg2rad(angle)
         rot = torch.tensor(
             [
-                [torch.cos(angle_rad), -torch.sin(angle_rad)],
-                [-torch.sin(angle_rad), -torch.cos(angle_rad)],
+                [torch.cos(angle_rad), torch.sin(angle_rad)],
+                [-torch.sin(angle_rad), torch.cos(angle_rad)],
             ],
             device=device,
             dtype=torch.float32,
